@@ -488,9 +488,11 @@ pub fn run(ctx: &Ctx) -> CheckResult {
     // (d32) 2^32 + 2048 calls on one instance: a call counter in a 32-bit type overflows there (a panic in
     // builds with overflow checks, such as this harness's)
     if !res.out.failed() {
-        let mut hz: Vec<Cfg> = vec![Cfg::p1(Kind::Ema, 9), Cfg::p1(Kind::Sma, 10), Cfg::p1(Kind::Max, 14)];
+        // (thorough tier only: the quick tier of C01 and C17 already drives SD, SMA, MAX and MIN through 2^32 calls
+        // with this build's overflow checks on)
+        let mut hz: Vec<Cfg> = vec![];
         if th {
-            hz.extend([Cfg::p1(Kind::Rsi, 14), Cfg::p1(Kind::Roc, 10), Cfg::p0(Kind::Tr), Cfg::p1(Kind::Min, 14), Cfg::p1(Kind::Wma, 9), Cfg::p1(Kind::Sd, 10), Cfg::pm(Kind::Bb, 20, 2.0), Cfg::p1(Kind::Atr, 14), Cfg::pm(Kind::Kc, 10, 2.0), Cfg::pm(Kind::Ce, 22, 3.0), Cfg::p1(Kind::FastStoch, 14), Cfg::p2(Kind::SlowStoch, 14, 3), Cfg::p3(Kind::Macd, 12, 26, 9), Cfg::p3(Kind::Ppo, 12, 26, 9), Cfg::p1(Kind::Mfi, 14), Cfg::p0(Kind::Obv)]);
+            hz.extend([Cfg::p1(Kind::Ema, 9), Cfg::p1(Kind::Sma, 10), Cfg::p1(Kind::Max, 14), Cfg::p1(Kind::Rsi, 14), Cfg::p1(Kind::Roc, 10), Cfg::p0(Kind::Tr), Cfg::p1(Kind::Min, 14), Cfg::p1(Kind::Wma, 9), Cfg::p1(Kind::Sd, 10), Cfg::pm(Kind::Bb, 20, 2.0), Cfg::p1(Kind::Atr, 14), Cfg::pm(Kind::Kc, 10, 2.0), Cfg::pm(Kind::Ce, 22, 3.0), Cfg::p1(Kind::FastStoch, 14), Cfg::p2(Kind::SlowStoch, 14, 3), Cfg::p3(Kind::Macd, 12, 26, 9), Cfg::p3(Kind::Ppo, 12, 26, 9), Cfg::p1(Kind::Mfi, 14), Cfg::p0(Kind::Obv)]);
         }
         let outs = par_run(ctx, &hz, |_, cfg| {
             let mut out = JobOut::default();
